@@ -102,6 +102,11 @@ class LogfileHandler(mlzlog.LogfileHandler):
         return child
 
     def doRollover(self):
+        if self.stream is None:
+            # mlzlog opens the file with the first record only, but closes it here
+            # unconditionally: a handler which did not write anything on the day of
+            # its creation would fail on every record and never write at all
+            self.stream = open(os.devnull, 'w', encoding='utf-8')
         super().doRollover()
         if self.max_days:
             # keep only the last max_days files
